@@ -102,19 +102,20 @@ Section Resume.
   Qed.
 
   (* the restarted crawl terminates with everything done or skipped *)
-  Lemma resume_terminates_final U :
+  Lemma resume_terminates_final U Lmax :
     (forall u, In u starts -> In u U) ->
     (forall u code links l, site u = Doc code links -> In l links -> In (fst l) U) ->
+    (forall u code links, site u = Doc code links -> (length links <= Lmax)%nat) ->
     (1 <= conc)%nat -> no_fail ->
     forall s s1, reach s -> Engine.fire site host in_scope maxredir starts conc LCrash s = Some s1 ->
-    (forall n s2, nsteps_nc site host in_scope maxredir starts conc n s1 s2 -> (n <= mu maxredir starts U s1)%nat) /\
+    (forall n s2, nsteps_nc site host in_scope maxredir starts conc n s1 s2 -> (n <= mu maxredir starts U Lmax s1)%nat) /\
     (forall s2, steps s1 s2 -> quiescent s2 ->
        st_items s2 = [] /\ forall r, In r (st_tbl s2) -> is_final (r_status r) = true).
   Proof.
-    intros HU HL C1 NF s s1 R Hc.
+    intros HU HL HLen C1 NF s s1 R Hc.
     assert (R1 : reach s1) by (econstructor; [exact R | exists LCrash; exact Hc]).
     split.
-    - intros n s2 H. pose proof (terminates site host in_scope maxredir starts conc scope_ext U HU HL n s1 s2 NF R1 H). lia.
+    - intros n s2 H. pose proof (terminates site host in_scope maxredir starts conc scope_ext U HU HL Lmax HLen n s1 s2 NF R1 H). lia.
     - intros s2 H Q. assert (R2 : reach s2) by (now apply (steps_reach s1)).
       destruct (quiescent_final site host in_scope maxredir starts conc scope_ext s2 C1 NF R2 Q) as [_ [Its Fin]].
       split; [assumption|]. intros r Hr. now destruct (Fin r Hr).
